@@ -1,5 +1,5 @@
 """C10 - Voice interpolation is the weighted average."""
-from ..expr import ExprBuilder, show, walk, root_of, stores, to_poly, Poly, canon
+from ..expr import resolve_upvars, ExprBuilder, show, walk, root_of, stores, to_poly, Poly, canon
 from .. import paths
 from . import common as cm
 
@@ -16,7 +16,7 @@ def adaptors(e):
 def run(ctx):
     ctx.rule("C10-R1", "sum over all voices: VoiceSet::weighted advances the voice iterator and the weight iterator exactly once each (first term), then zips the rest in the same order; no skipping adaptor; every remaining pair goes through mul_add_assign(weight_i, param_i); the accumulated value is returned")
     ctx.rule("C10-R2", "component coverage: mul yields w*x and mul_add_assign stores x + w*y for each of mean, variance and msd; MeanVari::weighted scales both fields")
-    ctx.rule("C10-R3", "which weights feed what: duration uses get_duration with duration_model; stream(i) uses get_parameter(i) with stream_models[i].stream_model; gv(i) uses get_gv(i) with stream_models[i].gv_model")
+    ctx.rule("C10-R3", "which weights feed what: duration uses get_duration with duration_model; stream(i) uses get_parameter(i) with stream_models[i].stream_model; gv(i) uses get_gv(i) with stream_models[i].gv_model; set_X / get_X of InterporationWeight address field X at the given stream index")
     p = cm.program(ctx)
 
     # ---- R1
@@ -151,27 +151,37 @@ def run(ctx):
         if not wsites:
             ctx.fail("C10-R3", fn, "weighted call", "VoiceSet::weighted is not called", b.loc())
         for cb, bb, t, ceb in wsites:
-            a1 = ceb.at(bb).op(t["args"][1])
+            a1 = resolve_upvars(p, cb, ceb.at(bb).op(t["args"][1]))
             s1 = show(a1)
-            src_ok = ("get_" in s1 and getter in s1) or (a1[0] == "upvar" and a1[1].lstrip("*") == "weights") or s1 == "weights"
+            # by value: the weights handed to weighted() are <getter>(self.weights[, stream_index]) itself
+            src_ok = s1 == "model::interporation_weight::InterporationWeight::%s(self.weights%s)" % (getter, ", " + idx if idx else "")
             clos = [x for x in walk(ceb.op(t["args"][2])) if x[0] == "agg" and x[1].startswith("closure:")]
             sel_ok = False
             for c in clos:
                 sb = p.bodies.get(c[1][len("closure:"):])
                 if sb is None:
                     continue
-                r = show(ExprBuilder(sb).local(0))
+                sret = resolve_upvars(p, sb, ExprBuilder(sb).local(0))
+                r = show(sret)
+                # the model is a field of the selector closure's own parameter (the voice)
+                own = [x for x in walk(sret) if x[0] == "field" and x[2] in ("duration_model", "stream_model", "gv_model")]
+                def _root_is_own_param(x):
+                    while x[0] in ("field", "idx"):
+                        x = x[1]
+                    return x[0] == "arg" and not str(x[2] or "").startswith("{closure")
                 if model == "duration_model":
-                    sel_ok = "voice.duration_model" in r and "stream_models" not in r
+                    sel_ok = len(own) == 1 and own[0][2] == model and _root_is_own_param(own[0]) and "stream_models" not in r
                 else:
-                    sel_ok = ("stream_models[^stream_index].%s" % model) in r or ("stream_models[stream_index].%s" % model) in r
+                    sel_ok = len(own) == 1 and own[0][2] == model and _root_is_own_param(own[0]) and (".stream_models[stream_index].%s" % model) in r
                 if not sel_ok:
                     ctx.fail("C10-R3", sb.path, "selected model", "%s blends %s, expected the voice's %s%s" % (fn.split("::")[-1], r[:120], "stream_models[stream_index]." if idx else "", model), sb.loc())
             if src_ok and sel_ok:
                 ctx.ok("C10-R3", "%s: weighted(%s weights, |voice| voice.%s...)" % (fn.split("::")[-1], getter, model), cm.loc_of(t["span"]))
             elif not src_ok:
                 ctx.fail("C10-R3", cb.path, "weights argument", "weighted() receives %s, expected the %s weights" % (s1[:100], getter), cm.loc_of(t["span"]))
-    ctx.assume("the weight accessors return their own field (C19-R5)")
+    # the three weight vectors are reached through accessors: set_X / get_X must address field X
+    from .c19 import accessor_agreement
+    accessor_agreement(ctx, p, "C10-R3")
     expl = ("Iterator typestate of the two cursors in VoiceSet::weighted (each advanced once, then zipped in order), exact polynomial "
             "forms of every store in mul/mul_add_assign per component (mean, variance, msd), and callee/field identity of the weight "
             "vector and model selected for duration, stream and GV. The sum is then exactly sum_i w_i x_i for every component; vertex "
